@@ -123,7 +123,10 @@ pub struct GenCase {
     /// by one with with_mutator instead of with_mutators; bit 2 - knobs written to the public fields;
     /// bit 3 - setters that would only restate a default (unsafe=false, ext=false, buffer=false) are not
     /// called; bit 4 - the caller takes the public `output` buffer after every earlier call; bit 5 -
-    /// `Generator::default()` + the public `state.version` field instead of `Generator::new(version)`
+    /// the generator is constructed for another protocol and the public `state.version` field is then
+    /// assigned, instead of `Generator::new(version)`; bits 6-7 say which other construction:
+    /// 0 `Generator::default()`, 1 `Generator::new(V5)`, 2 `Generator::new(V0)`, 3 `Generator::new` of
+    /// protocol+3 mod 6 with the earlier calls of a reuse history made under that other protocol
     #[serde(default)]
     pub build_style: u8,
     /// `with_buffer_size(n)` (documented as limiting the pickle size; a no-op in the tree as given)
@@ -186,8 +189,13 @@ impl GenCase {
     /// (mutators are created with the generator's own unsafe flag, as in main.rs).
     pub fn build(&self, spy: Option<&SpyLog>) -> Generator {
         let mut g = if self.build_style & 32 != 0 {
-            // Generator::default() plus the public `state.version` field instead of Generator::new(version)
-            let mut g = Generator::default();
+            // constructed for another protocol, then the public `state.version` field is assigned
+            let mut g = match self.build_style >> 6 {
+                0 => Generator::default(),
+                1 => Generator::new(Version::V5),
+                2 => Generator::new(Version::V0),
+                _ => Generator::new(self.other_version()),
+            };
             g.state.version = self.version();
             g
         } else {
@@ -268,13 +276,25 @@ impl GenCase {
         }
     }
 
+    fn other_version(&self) -> Version {
+        Version::try_from((self.protocol as usize + 3) % 6).expect("protocol 0..=5")
+    }
+
     fn warm(&self, g: &mut Generator, spy: Option<&SpyLog>) {
+        let switch = self.build_style & 32 != 0 && self.build_style >> 6 == 3 && self.prior_calls > 0;
+        if switch {
+            // the earlier calls of the history ran under the other protocol
+            g.state.version = self.other_version();
+        }
         for i in 0..self.prior_calls {
             let _ = call_gen_guarded(g, &self.prior_entropy(i));
             if self.build_style & 16 != 0 {
                 // `output` is a public field; a caller may move the bytes out instead of cloning them
                 let _ = std::mem::take(&mut g.output);
             }
+        }
+        if switch {
+            g.state.version = self.version();
         }
         if let Some(l) = spy {
             l.lock().unwrap().clear();
@@ -638,7 +658,7 @@ pub fn gencase(p: &Profile) -> BoxedStrategy<GenCase> {
         prop_oneof![2 => Just(false), 1 => Just(true)],
         prop_oneof![2 => Just(false), 1 => Just(true)],
         prop_oneof![14 => Just(0u8), 4 => Just(1u8), 2 => Just(2u8)],
-        (prop_oneof![3 => Just(0u8), 3 => 0u8..64], prop_oneof![9 => Just(None), 1 => proptest::sample::select(vec![16usize, 64, 256, 320, 1024, 4096, 1 << 20]).prop_map(Some)]),
+        (prop_oneof![3 => Just(0u8), 2 => 0u8..64, 2 => any::<u8>()], prop_oneof![9 => Just(None), 1 => proptest::sample::select(vec![16usize, 64, 256, 320, 1024, 4096, 1 << 20]).prop_map(Some)]),
     )
         .prop_map(move |(protocol, entropy, (min, max), mutators, rate, uns, ext, buf, prior, (style, bufsize))| GenCase {
             protocol,
@@ -721,7 +741,7 @@ pub fn gencase_from_bytes(data: &[u8], unsafe_mode: UnsafeMode) -> GenCase {
         allow_ext: flags & 4 != 0,
         allow_buffer: flags & 8 != 0,
         prior_calls: (flags >> 4) % 3,
-        build_style: (flags >> 6) | ((b(8) & 7) << 2),
+        build_style: (flags >> 6) | ((b(8) & 0x3f) << 2),
         bufsize: None,
     }
 }
